@@ -1,0 +1,87 @@
+//! Virtual timestamp counter and overrides for values that production
+//! measures from the real clock.
+
+use std::sync::{
+    atomic::{AtomicU64, AtomicUsize, Ordering::SeqCst},
+    Mutex,
+};
+
+use crate::time::{FineDuration, TimedOverhead};
+
+/// `fn(is_end: bool) -> u64` stored as an address; 0 means "no reader".
+static READER: AtomicUsize = AtomicUsize::new(0);
+
+static FREQUENCY: AtomicU64 = AtomicU64::new(0);
+
+static PRECISION: Mutex<Option<u128>> = Mutex::new(None);
+
+static OVERHEADS: Mutex<Option<&'static TimedOverhead>> = Mutex::new(None);
+
+static OVERHEAD_CACHE: Mutex<Vec<([u128; 4], &'static TimedOverhead)>> =
+    Mutex::new(Vec::new());
+
+/// Installs (or removes) the function that supplies every TSC reading.
+///
+/// The argument tells whether the reading is an end-of-section (`true`) or a
+/// start-of-section (`false`) timestamp.
+pub fn set_reader(reader: Option<fn(bool) -> u64>) {
+    READER.store(reader.map(|f| f as usize).unwrap_or(0), SeqCst);
+}
+
+/// Called by `TscTimestamp::{start, end}`.
+#[inline]
+pub(crate) fn read(is_end: bool) -> Option<u64> {
+    let addr = READER.load(SeqCst);
+    if addr == 0 {
+        return None;
+    }
+    // SAFETY: Only `set_reader` stores into `READER`.
+    let reader: fn(bool) -> u64 = unsafe { std::mem::transmute(addr) };
+    Some(reader(is_end))
+}
+
+/// Makes `Timer::get_tsc()` return this frequency (0 removes the override).
+pub fn set_frequency(frequency: u64) {
+    FREQUENCY.store(frequency, SeqCst);
+}
+
+pub(crate) fn frequency_override() -> Option<std::num::NonZeroU64> {
+    std::num::NonZeroU64::new(FREQUENCY.load(SeqCst))
+}
+
+/// Makes `Timer::precision()` return this many picoseconds.
+pub fn set_precision(picos: Option<u128>) {
+    *PRECISION.lock().unwrap_or_else(|e| e.into_inner()) = picos;
+}
+
+pub(crate) fn precision_override() -> Option<FineDuration> {
+    PRECISION
+        .lock()
+        .unwrap_or_else(|e| e.into_inner())
+        .map(|picos| FineDuration { picos })
+}
+
+/// Makes `Timer::bench_overheads()` return these picosecond values
+/// (`sample_loop, tally_alloc, tally_dealloc, tally_realloc`).
+pub fn set_overheads(picos: Option<[u128; 4]>) {
+    let value = picos.map(|picos| {
+        let mut cache =
+            OVERHEAD_CACHE.lock().unwrap_or_else(|e| e.into_inner());
+        if let Some((_, cached)) = cache.iter().find(|(k, _)| *k == picos) {
+            return *cached;
+        }
+        let leaked: &'static TimedOverhead = Box::leak(Box::new(TimedOverhead {
+            sample_loop: FineDuration { picos: picos[0] },
+            tally_alloc: FineDuration { picos: picos[1] },
+            tally_dealloc: FineDuration { picos: picos[2] },
+            tally_realloc: FineDuration { picos: picos[3] },
+        }));
+        cache.push((picos, leaked));
+        leaked
+    });
+    *OVERHEADS.lock().unwrap_or_else(|e| e.into_inner()) = value;
+}
+
+pub(crate) fn overheads_override() -> Option<&'static TimedOverhead> {
+    *OVERHEADS.lock().unwrap_or_else(|e| e.into_inner())
+}
